@@ -1617,6 +1617,13 @@ class NPShim:
         return Arr(tuple(shape), lambda idx: o, k)
 
     @staticmethod
+    def full(shape, v, dtype=None):
+        if not isinstance(shape, (tuple, list)):
+            shape = (shape,)
+        s_ = as_sym(v)
+        return Arr(tuple(shape), lambda idx: s_, dtype_kind(dtype) or ("b" if s_.is_bool else ("i" if s_.is_int else "f")))
+
+    @staticmethod
     def zeros_like(a, dtype=None):
         a = asarr(a)
         k = dtype_kind(dtype) or a.kind
